@@ -35,6 +35,9 @@ StringDictionaryXBW::StringDictionaryXBW() {
   this->elements = 0;
   this->maxlength = 0;
 
+  this->xbw = NULL;
+
+  this->len = 0;
   this->mapping = NULL;
   this->alpha = NULL;
   this->last = NULL;
@@ -239,7 +242,11 @@ void StringDictionaryXBW::save(std::ostream &out) {
   saveValue<uint64_t>(out, elements);
   saveValue<uint32_t>(out, maxlength);
 
-  saveArrays(out);
+  // A loaded dictionary does not keep the arrays: the XBW writes them back
+  if (alpha != NULL)
+    saveArrays(out);
+  else
+    xbw->save(out);
 }
 
 void StringDictionaryXBW::saveArrays(std::ostream &out) {
